@@ -1100,7 +1100,8 @@ static const uint8_t *unmarshal_one_fiber(
     JanetTable *fiber_env = NULL;
 
     /* Check for bad flags and ints */
-    if ((int32_t)(frame + JANET_FRAME_SIZE) > fiber_stackstart ||
+    /* (compare without adding to the image's numbers, which could wrap) */
+    if (frame > fiber_stackstart - (int32_t) JANET_FRAME_SIZE ||
             fiber_stackstart > fiber_stacktop ||
             fiber_stacktop > fiber_maxstack) {
         janet_panic("fiber has incorrect stack setup");
@@ -1152,7 +1153,7 @@ static const uint8_t *unmarshal_one_fiber(
         if (pcdiff >= def->bytecode_length) {
             janet_panic("fiber stackframe has invalid pc");
         }
-        if ((int32_t)(prevframe + JANET_FRAME_SIZE) > stack) {
+        if (prevframe > stack - (int32_t) JANET_FRAME_SIZE) {
             janet_panic("fiber stackframe does not align with previous frame");
         }
 
